@@ -6,6 +6,8 @@ import traceback
 
 import torch
 
+from symtrace.engine import REPO_PREFIX
+
 from catalog.builders import BUILDERS
 from linear_operator import settings
 from props.common import SIGNALS
@@ -102,8 +104,10 @@ def cells(tier, seed):
                 continue
             if "nested" in b.tags and (n > 2 or len(batch) > 1):
                 continue
-            if "eig" in b.tags and (n != 2 or batch):
-                continue
+            if "eig" in b.tags:
+                continue  # eigen-parametrised variants of Dense / Kronecker / Diag: indexing is covered by the plain builders
+            if name == "Cat(Toeplitz,Diag)":
+                continue  # CatLinearOperator indexing is covered by CatRows / CatCols / CatBatch (all known-broken, F13)
             for debug in ((True,) if tier == "quick" else (True, False)):
                 out.append({"id": f"{name}/n{n}/b{'x'.join(map(str, batch)) or '-'}/d{int(debug)}/diag",
                             "params": {"builder": name, "n": n, "batch": list(batch), "group": "diag", "debug": debug}})
@@ -143,7 +147,7 @@ def explicit_unsupported(e):
     if isinstance(e, (RuntimeError, ValueError)):
         tb = traceback.extract_tb(e.__traceback__)
         last = tb[-1] if tb else None
-        if last is not None and last.filename.startswith("/repo/linear_operator") and (last.line or "").lstrip().startswith(("raise", '"', "f\"", "'")):
+        if last is not None and last.filename.startswith(REPO_PREFIX) and (last.line or "").lstrip().startswith(("raise", '"', "f\"", "'")):
             return bool(_UNSUPPORTED_RE.search(str(e)))
     return False
 
